@@ -11,6 +11,8 @@
 //!   6 upgrade, hold, send an undecodable frame          (fatal, was connected)
 //!   7 upgrade, never answer a Connect, until the client leaves (stream request timeout if a
 //!     request is pending: retryable, was connected)
+//!   9 upgrade, open the `opens` local connections at once (their Connect is never answered), hold,
+//!     then send an undecodable frame: fatal although a stream request is in flight
 //!   8 refuse: the listener is closed while the client makes this attempt (ConnectionRefused:
 //!     retryable, never connected); `hold` of the first entry of a run of 8s = how long the listener
 //!     stays closed, counted from the previous observed failure (or from the client's start); the
@@ -236,6 +238,18 @@ async fn scenario(c: Vec<u64>) -> Vec<u64> {
                     let _ = tokio::time::timeout(Duration::from_millis(500), async { while let Some(Ok(_)) = ws.next().await {} }).await;
                 }
             }
+            9 => {
+                if let Some(mut ws) = upgrade(tcp).await {
+                    for _ in 0..opens {
+                        locals.push(open_local(lport, 0x1900_0000 + locals.len() as u64));
+                    }
+                    tokio::time::sleep(hold).await;
+                    let _ = ws.send(Message::Binary(vec![0xffu8, 0xff, 0xff].into())).await;
+                    let _ = tokio::time::timeout(Duration::from_millis(500), async { while let Some(Ok(_)) = ws.next().await {} }).await;
+                }
+                last_fail = Some(Instant::now());
+                continue;
+            }
             7 => {
                 if let Some(mut ws) = upgrade(tcp).await {
                     // open the local connections now: their stream request will never be answered
@@ -266,6 +280,11 @@ async fn scenario(c: Vec<u64>) -> Vec<u64> {
             }
         }
         last_fail = Some(Instant::now());
+        if matches!(kind, 4 | 6) && opens > 0 {
+            // the client is ending: give it the time to do so before new local connections arrive
+            // (a request arriving in the very poll in which the fatal error is noticed is scenario 9's subject)
+            tokio::time::sleep(Duration::from_millis(100)).await;
+        }
         for _ in 0..opens {
             locals.push(open_local(lport, 0x1900_0000 + locals.len() as u64));
         }
@@ -318,7 +337,7 @@ fn place_refusals(c: &mut [u64]) {
             break;
         }
         if kind != 8 {
-            if matches!(kind, 2 | 3 | 6 | 7) {
+            if matches!(kind, 2 | 3 | 6 | 7 | 9) {
                 j = 0;
             }
             j += 1;
@@ -365,6 +384,8 @@ pub fn generate(a: &Args, out: &mut Out) {
         vec![800, 0, 400, 2000, 8, 0, 0, 8, 0, 0, 1, 0, 0],
         vec![800, 0, 400, 2000, 1, 0, 0, 8, 0, 1, 1, 0, 0],
         vec![1000, 2, 400, 2000, 1, 0, 0, 8, 0, 0, 8, 0, 0, 1, 0, 0],
+        // a fatal error while a stream request is in flight is still fatal
+        vec![1000, 0, 400, 2000, 1, 0, 0, 9, 120, 1, 1, 0, 0],
     ];
     let fixed: Vec<Vec<u64>> = fixed.into_iter().map(|mut c| { place_refusals(&mut c); c }).collect();
     if !a.mode.contains("random-only") {
@@ -378,10 +399,10 @@ pub fn generate(a: &Args, out: &mut Out) {
         let n = 1 + rng.below(5);
         let mut c = vec![max_ms, max_count, hs, ch];
         for _ in 0..n {
-            let kind = rng.pick(&[1u64, 1, 1, 2, 2, 3, 3, 5, 7, 4, 6, 0, 8, 8]);
+            let kind = rng.pick(&[1u64, 1, 1, 2, 2, 3, 3, 5, 7, 4, 6, 0, 8, 8, 9]);
             let hold = rng.pick(&[0u64, 30, 120]);
             let opens = if rng.chance(1, 3) { 1 + rng.below(2) } else { 0 };
-            c.extend([kind, if kind == 7 { 3000 } else { hold }, opens]);
+            c.extend([kind, if kind == 7 { 3000 } else if kind == 9 { 120 } else { hold }, if kind == 9 { opens.max(1) } else { opens }]);
         }
         place_refusals(&mut c);
         cases.push(c);
